@@ -127,14 +127,14 @@ def build(draw, d, prof, name):
     if name in NEEDS_PROVIDER and not d.providers:
         name = 'create_rp'
     if name in ('create_rp', 'create_root') and not gen.free_uuids(d) and \
-            draw(st.integers(0, 3)) > 0:
+            draw(st.integers(0, 3)) < 3:
         # the pool is exhausted: make room instead of producing yet another
         # duplicate-uuid refusal
         name = 'delete_rp'
     defect = None
     rate = min(prof.defect_rate, 1) if name == 'create_rp' \
         else prof.defect_rate
-    if name in DEFECTS and draw(st.integers(0, 9)) < rate:
+    if name in DEFECTS and draw(st.integers(0, 9)) >= 10 - rate:
         defect = draw(st.sampled_from(DEFECTS[name]))
     if name == 'create_rp':
         return gen.create_rp(draw, d, v, defect=defect)
